@@ -251,7 +251,7 @@ def m5_block_filter(S):
         return getattr(v, "name", None) or type(v).__name__
     call = lambda tag: (lambda ex, c, a, d: OpaqueV(tag + "(" + ",".join(nmv(ex, x) for x in a) + ")", d))
     # ---- (a)
-    f = [x for x in S.prog.funcs if x.kind == "fn" and x.short == "build_filter_data" and "utilities/block_filter.rs" in x.name]
+    f = [x for x in S.prog.funcs if x.kind == "fn" and x.short == "build_filter_data" and x.name == "build_filter_data" and len(x.params) == 2 and "TransactionView" in x.params[1][1]]
     if len(f) != 1:
         raise Inconclusive(f"build_filter_data: {len(f)} candidates")
     for nin in range(0, 3):
@@ -315,7 +315,7 @@ def m5_block_filter(S):
     ctx.env = [(E.rx(r"blake2b_256"), call("H")), (E.rx(r"::calc_raw_data_hash$"), call("H_data")), (E.rx(r"::as_slice$"), lambda ex, c, a, d: OpaqueV(nmv(ex, a[0]), d)),
                (E.rx(r"::concat"), lambda ex, c, a, d: OpaqueV("cat" + nmv(ex, a[0]), d)),
                (E.rx(r"as Unsize|as_slice|into_boxed_slice|as Deref>::deref$"), lambda ex, c, a, d: a[0])]
-    f = [x for x in S.prog.funcs if x.kind == "fn" and x.short == "calc_filter_hash" and "utilities/block_filter.rs" in x.name]
+    f = [x for x in S.prog.funcs if x.kind == "fn" and x.short == "calc_filter_hash" and x.name == "calc_filter_hash" and len(x.params) == 2]
     if len(f) != 1:
         raise Inconclusive(f"calc_filter_hash: {len(f)} candidates")
     ps = S.run(ctx, f[0], [ctx.ref_to(OpaqueV("parent_filter_hash", "Byte32")), ctx.ref_to(OpaqueV("filter_data", "Bytes"))])
@@ -343,6 +343,13 @@ def m5_block_filter(S):
     f = [x for x in S.prog.funcs if x.kind == "fn" and x.short == "build_filter_data_for_block" and "block-filter/src/filter.rs" in x.name]
     if len(f) != 1:
         raise Inconclusive(f"build_filter_data_for_block: {len(f)} candidates")
+    _run_builder_step(S, ob, f[0], nmv) if len(f[0].params) == 2 else None
+    _run_builder_scenarios(S, ob)
+
+
+def _run_builder_step(S, ob, fstep, nmv):
+    from mir2smt.exec import ListV
+    f = [fstep]
     ctx = S.ctx()
     ctx.uninterpreted_unknown_calls = True
     genesis = ctx.bool("is_genesis"); built = ctx.bool("already_built")
@@ -371,7 +378,7 @@ def m5_block_filter(S):
         (E.rx(r"StoreTransaction::insert_block_filter$"), ibf),
         (E.rx(r"StoreTransaction::commit$"), lambda ex, c, a, d: mk_result(True, UNIT, OpaqueV("dberr", "Error"), d)),
         (E.rx(r"as Clone>::clone$|as Into<.*>>::into$|as From<.*>>::from$|as Deref>::deref$"), lambda ex, c, a, d: OpaqueV(nmv(ex, a[0]), d)),
-        (E.rx(r"WrappedChainDB::<.*>::new$|begin_transaction$|as Iterator>::|::iter$|::len$"), E.opaque_call()),
+        (E.rx(r"WrappedChainDB::<.*>::new$|begin_transaction$|as Iterator>::(map|sum)::<|::iter$|::len$|::total_size$"), E.opaque_call()),
     ] + list(E.LIST_ADAPTORS)
     ps = S.run(ctx, f[0], [ctx.ref_to(OpaqueV("filter_service", "BlockFilter")), ctx.ref_to(OpaqueV("header", "HeaderView"))])
     S.prove(ctx, ob, "builder_no_panic", [], T.not_(cond_of(panics(ps))))
@@ -388,11 +395,81 @@ def m5_block_filter(S):
             extra={"note": str([a for a, _ in ins]) + str(bodies)})
 
 
+
+def _run_builder_scenarios(S, ob):
+    from mir2smt.exec import ListV
+    # ---- (e) the whole builder run after a reorganisation (scenario level, independent of how the work is split into helpers): the latest built filter belongs to a detached
+    # block D3 (parent F2 on the main chain), the main chain is now F2 - M3 - M4 (tip): filters are (re)built for M3 and M4, M3 chains from F2's filter hash, M4 from M3's
+    outer = [x for x in S.prog.funcs if x.kind == "fn" and x.short == "build_filter_data" and "block-filter/src/filter.rs" in x.name and len(x.params) == 1]
+    if len(outer) != 1:
+        raise Inconclusive(f"BlockFilter::build_filter_data: {len(outer)} candidates")
+    for scen, latest in (("latest_built_on_a_detached_fork", "D3"), ("latest_built_on_the_main_chain", "M3"), ("nothing_built_yet", None)):
+        ctx = S.ctx(unwind=12)
+        ctx.uninterpreted_unknown_calls = True
+        number = {"G0": 0, "F1": 1, "F2": 2, "M3": 3, "M4": 4, "D3": 3}
+        parent = {"F1": "G0", "F2": "F1", "M3": "F2", "M4": "M3", "D3": "F2"}
+        main = {0: "G0", 1: "F1", 2: "F2", 3: "M3", 4: "M4"}
+        prebuilt = {"G0", "F1", "F2", "D3"} if latest == "D3" else {"G0", "F1", "F2", "M3"} if latest == "M3" else set()
+        ins2 = []
+
+        def nm2(ex, v):
+            v = deref(ex, v)
+            return getattr(v, "name", None) or type(v).__name__
+        key = lambda n: n.split(".", 1)[1] if "." in n else n
+
+        def built_now(ex):
+            return prebuilt | {e[2][0] for e in ex.log if e[0] == "ins"}
+
+        def gfh2(ex, c, a, d):
+            k = key(nm2(ex, a[1]))
+            return mk_option(k in built_now(ex), OpaqueV("fh." + k, "Byte32"), d)
+
+        def ibf2(ex, c, a, d):
+            args = [key(nm2(ex, a[1])), nm2(ex, a[2]), nm2(ex, a[3])]
+            ex.log.append(("ins", c, args, list(ex.pc)))
+            ins2.append((args, list(ex.pc)))
+            return mk_result(True, UNIT, OpaqueV("dberr", "Error"), d)
+        ctx.env = list(E.LOGGING_OFF) + [
+            (E.rx(r"Shared::snapshot$"), lambda ex, c, a, d: OpaqueV("snapshot", d)),
+            (E.rx(r"Shared::store$"), lambda ex, c, a, d: ex.ctx.ref_to(OpaqueV("db", "ChainDB"))),
+            (E.rx(r"as Deref>::deref$"), lambda ex, c, a, d: ex.ctx.ref_to(OpaqueV(nm2(ex, a[0]), "?"))),
+            (E.rx(r"ChainStore>::get_tip_header$"), lambda ex, c, a, d: mk_option(True, OpaqueV("hdr.M4", "HeaderView"), d)),
+            (E.rx(r"ChainStore>::get_latest_built_filter_data_block_hash$"), lambda ex, c, a, d: mk_option(latest is not None, OpaqueV("hash." + (latest or "none"), "Byte32"), d)),
+            (E.rx(r"ChainStore>::is_main_chain$"), lambda ex, c, a, d: BoolV(key(nm2(ex, a[1])) in main.values())),
+            (E.rx(r"ChainStore>::get_block_header$"), lambda ex, c, a, d: mk_option(True, OpaqueV("hdr." + key(nm2(ex, a[1])), "HeaderView"), d)),
+            (E.rx(r"ChainStore>::get_block_hash$"), lambda ex, c, a, d: mk_option(True, OpaqueV("hash." + main[deref(ex, a[1]).t], "Byte32"), d)),
+            (E.rx(r"HeaderView::hash$"), lambda ex, c, a, d: OpaqueV("hash." + key(nm2(ex, a[0])), d)),
+            (E.rx(r"HeaderView::parent_hash$"), lambda ex, c, a, d: OpaqueV("hash." + parent[key(nm2(ex, a[0]))], d)),
+            (E.rx(r"HeaderView::number$"), lambda ex, c, a, d: IntV(number[key(nm2(ex, a[0]))], "u64")),
+            (E.rx(r"HeaderView::is_genesis$"), lambda ex, c, a, d: BoolV(key(nm2(ex, a[0])) == "G0")),
+            (E.rx(r"has_received_stop_signal$"), lambda ex, c, a, d: BoolV(False)),
+            (E.rx(r"Byte32>?::zero$"), lambda ex, c, a, d: OpaqueV("ZERO", d)),
+            (E.rx(r"ChainStore>::get_block_filter_hash$"), gfh2),
+            (E.rx(r"ChainStore>::get_block_body$"), lambda ex, c, a, d: OpaqueV("body." + key(nm2(ex, a[1])), d)),
+            (E.rx(r"(^|::)build_filter_data::<"), lambda ex, c, a, d: AggV((OpaqueV("filter_of." + key(nm2(ex, a[1])), "Vec<u8>"), ListV((), "Vec<OutPoint>")), d)),
+            (E.rx(r"StoreTransaction::insert_block_filter$"), ibf2),
+            (E.rx(r"StoreTransaction::commit$"), lambda ex, c, a, d: mk_result(True, UNIT, OpaqueV("dberr", "Error"), d)),
+            (E.rx(r"as Clone>::clone$|as Into<.*>>::into$|as From<.*>>::from$"), lambda ex, c, a, d: OpaqueV(nm2(ex, a[0]), d)),
+            (E.rx(r"WrappedChainDB::<.*>::new$|begin_transaction$|as Iterator>::(map|sum)::<|::iter$|::len$|::total_size$"), E.opaque_call()),
+        ] + list(E.LIST_ADAPTORS)
+        ps = S.run(ctx, outer[0], [ctx.ref_to(OpaqueV("filter_service", "BlockFilter"))])
+        rs = returns(ps)
+        S.prove(ctx, ob, f"run_{scen}_single_path_no_panic", [], bool(len(rs) == 1 and not panics(ps)))
+        got = [e[2] for e in rs[0].log if e[0] == "ins"] if rs else None
+        if latest == "D3":
+            want = [["M3", "filter_of.M3", "fh.F2"], ["M4", "filter_of.M4", "fh.M3"]]
+        elif latest == "M3":
+            want = [["M4", "filter_of.M4", "fh.M3"]]
+        else:
+            want = [["G0", "filter_of.G0", "ZERO"], ["F1", "filter_of.F1", "fh.G0"], ["F2", "filter_of.F2", "fh.F1"], ["M3", "filter_of.M3", "fh.F2"], ["M4", "filter_of.M4", "fh.M3"]]
+        S.prove(ctx, ob, f"run_{scen}_builds_every_missing_main_chain_filter_each_chained_from_its_parents", [], bool(got == want), extra={"note": str(got)})
+
+
 def _columns():
     src = open(os.path.join(os.environ.get("VERIF_REPO", "/repo"), "db-schema/src/lib.rs")).read()
     out = {}
     for m in re.finditer(r"pub const (COLUMN_\w+): Col = \"(\d+)\";", src):
-        out[m.group(1)] = "const." + m.group(1)
+        out[m.group(1)] = "const.ckb_db_schema__" + m.group(1)
     return out
 
 
